@@ -413,6 +413,84 @@ func init() {
 		}
 		panic(skipMisuse{})
 	})
+	// ---- the ...Unchecked accessors with a dead handle whose ID has been recycled: they are documented to skip the
+	// liveness check, so they address the ID's current occupant. Whether such a call panics is not specified in
+	// itself, but all build configurations must agree (C20). h is the stale handle.
+	occupant := func(d *Drv, h ecs.Entity) (EID, *MEnt) {
+		for e := len(d.M.Ents) - 1; e >= d.M.Epoch0; e-- {
+			if d.M.Ents[e].Alive && e < len(d.H) && d.H[e].ID() == h.ID() {
+				return EID(e), &d.M.Ents[e]
+			}
+		}
+		panic(skipMisuse{})
+	}
+	occComp := func(d *Drv, op *Op, h ecs.Entity, rel bool) int {
+		_, st := occupant(d, h)
+		var l []int
+		for _, c := range st.Mask.List() {
+			if u.Types[c].IsRel == rel && (rel || !u.Types[c].ZeroSize) {
+				l = append(l, c)
+			}
+		}
+		if len(l) == 0 {
+			panic(skipMisuse{})
+		}
+		return l[op.N%len(l)]
+	}
+	addMisuse("uncheckedstale", "Unsafe.GetUnchecked(recycled handle)+deref", func(d *Drv, op *Op, h, _ ecs.Entity) {
+		c := occComp(d, op, h, false)
+		v, _ := u.Types[c].Dec(d.U.GetUnchecked(h, d.ID[c]))
+		sink = v
+	})
+	addMisuse("uncheckedstale", "Unsafe.HasUnchecked(recycled handle)", func(d *Drv, op *Op, h, _ ecs.Entity) {
+		c := occComp(d, op, h, false)
+		if !d.U.HasUnchecked(h, d.ID[c]) {
+			sink++
+		}
+	})
+	addMisuse("uncheckedstale", "Unsafe.GetRelationUnchecked(recycled handle)", func(d *Drv, op *Op, h, _ ecs.Entity) {
+		c := occComp(d, op, h, true)
+		sink = int64(d.U.GetRelationUnchecked(h, d.ID[c]).ID())
+	})
+	addMisuse("uncheckedstale", "Map.GetUnchecked(recycled handle)+deref", func(d *Drv, op *Op, h, _ ecs.Entity) {
+		c := occComp(d, op, h, false)
+		v, _ := u.Types[c].Dec(d.Maps[c].GetUnchecked(h))
+		sink = v
+	})
+	addMisuse("uncheckedstale", "Map.HasUnchecked(recycled handle)", func(d *Drv, op *Op, h, _ ecs.Entity) {
+		c := occComp(d, op, h, false)
+		if !d.Maps[c].HasUnchecked(h) {
+			sink++
+		}
+	})
+	addMisuse("uncheckedstale", "Map.GetRelationUnchecked(recycled handle)", func(d *Drv, op *Op, h, _ ecs.Entity) {
+		c := occComp(d, op, h, true)
+		sink = int64(d.Maps[c].GetRelationUnchecked(h).ID())
+	})
+	addMisuse("uncheckedstale", "MapN.GetUnchecked(recycled handle)+deref", func(d *Drv, op *Op, h, _ ecs.Entity) {
+		_, st := occupant(d, h)
+		for k := range typed.Tuples {
+			ti := (k + op.N) % len(typed.Tuples)
+			cs := typed.Tuples[ti].Comps
+			if !st.Mask.Contains(SetOf(cs...)) {
+				continue
+			}
+			ptrs := d.TMap(ti).GetUnchecked(h)
+			for j, c := range cs {
+				if !u.Types[c].ZeroSize {
+					v, _ := u.Types[c].Dec(ptrs[j])
+					sink = v
+				}
+			}
+			for j, c := range cs {
+				if u.Types[c].IsRel {
+					sink += int64(d.TMap(ti).GetRelationUnchecked(h, j).ID())
+				}
+			}
+			return
+		}
+		panic(skipMisuse{})
+	})
 	// the same patterns for every generated query arity: op.Tuple is a typed tuple contained in the victim's composition
 	// (the result is non-empty), cached and uncached
 	derefable := func(op *Op) {
@@ -694,6 +772,13 @@ func (d *Drv) misuse(op *Op) {
 		if !ok {
 			panic(skipMisuse{})
 		}
+	case "uncheckedstale":
+		var ok bool
+		h, ok = d.staleHandle(StaleReused, op.N)
+		if !ok {
+			panic(skipMisuse{})
+		}
+		op.Sub = StaleReused
 	case "deadtarget", "deadtarget2", "badquery":
 		var ok bool
 		kind := op.Sub
